@@ -321,6 +321,14 @@ func (t *tr) write(dir string) {
 		}
 		return it.G.file
 	}
+	// functions that mention float64/float32 go to their own modules (<File>Float), so that the
+	// modules the existing proofs import keep their text
+	modFile := func(F *fn) string {
+		if F.usesFloat {
+			return strings.TrimSuffix(F.file, ".go") + "Float.go"
+		}
+		return F.file
+	}
 	sort.SliceStable(items, func(i, j int) bool {
 		ri, ok1 := rank[fileOf(items[i])]
 		rj, ok2 := rank[fileOf(items[j])]
@@ -417,7 +425,7 @@ func (t *tr) write(dir string) {
 			placeG(g)
 			deps = append(deps, placedG[g])
 		}
-		placedF[F] = put(F.file, deps, F.lines, F.name)
+		placedF[F] = put(modFile(F), deps, F.lines, F.name)
 		visiting[F] = false
 	}
 	for _, it := range items {
@@ -431,6 +439,9 @@ func (t *tr) write(dir string) {
 	for _, m := range mods {
 		var b strings.Builder
 		b.WriteString(header + "import D128.Gen.Types\n")
+		if strings.HasSuffix(m.file, "Float.go") {
+			b.WriteString("import D128.Go.Float\n")
+		}
 		var ds []string
 		for d := range m.deps {
 			ds = append(ds, d.name)
